@@ -9,6 +9,7 @@ SIM_NOTE = ("trusted base: the simulated kernel simk (documented ET-epoll / non-
             "decoders, gcc ASan/UBSan/LSan; the real cjet sources are compiled unmodified from /repo's working tree and linked with ld --wrap")
 
 UNIT_NOTE = {
+    "C17": "trusted base: harness/ht (one TU per type x order instantiating the real macros), the reference arrays and the conservative FULL criterion (free or dead slot within min(add_range, 32) of the home bucket); gcc ASan/UBSan",
     "C20": "trusted base: harness/authfs (ld --wrap on the file-system calls of the real auth_file.c), the crash model 'effects of completed calls in program order', Python crypt for reference hashes; plus the simulated-kernel base for the daemon-level part",
     "C18": "trusted base: the independent reference DFA in harness/utf8/utf8_harness.c (written from RFC 3629), gcc ASan/UBSan; real utf8_checker.c compiled from /repo's working tree; little-endian word order",
 }
@@ -36,6 +37,12 @@ CLAIMS = {
             "Exhaustive product of validator state x reference DFA state x 256 bytes; all 2^32 words (thorough) / class-representative alphabet (quick) through the 32-bit fast path, 64-bit lanes, all split points and alignments of the chunked and auto-aligned entry points; ASan+UBSan lane and -O2 lane.", "4 C18"),
     "C05": ("exploration", "enumerated product of transport x role x phase x ending on the simulated kernel with replica / routing / hygiene / resource monitors (runtime monitoring + ASan)",
             "All 870 cells of the product are executed on the real daemon; monitors: victim released, its elements removed from every replica, routed requests to it answered with an error, nothing generated for it afterwards, third parties undisturbed, idle baseline.", "4 C05"),
+    "C09": ("exploration", "differential monitoring: reference execution vs kernel-policy variants (segmentation, coalescing, batching, spurious wake-ups, read-buffer scribbling); parse_message content tap",
+            "The same multi-connection script is executed as reference and under up to 16 kernel policies incl. scribbling of the read buffer behind the received bytes; decoded outputs per connection must be identical; the content handed to the JSON layer must equal the k-th message sent.", "4 C09"),
+    "C12": ("exploration", "strict RFC 6455 decoder and close-status oracle on the real endpoint, digest recomputation, raw/WebSocket transparency differential (runtime monitoring)",
+            "Handshake variants, strict decoding of every server frame, ping/pong over all control payload lengths and mask patterns, the listed protocol violations with their required close status, legal closes, identical JSON-RPC dialogue on raw and WebSocket transports.", "4 C12"),
+    "C17": ("exploration", "reference-map and structural-invariant monitor on the real hashtable.h macros (exhaustive small orders, adversarial random histories)",
+            "All op sequences up to length 6 (quick) / 7 (thorough) over 5 colliding keys for orders 2-4 x 3 key types, seeded adversarial histories for orders 5-13; whole-universe get comparison, hop-bit/slot bijection and FULL-only-when-unreachable after every operation.", "4 C17"),
     "C13": ("exploration", "validity-class oracle over templates truncated / corrupted at every byte, resource monitor and ASan/LSan at shutdown (runtime monitoring)",
             "Valid templates must get 101; requests invalid by construction must never get 101 and must get an HTTP error or a close; truncation at every byte and corruption at every position of every template; every exchange must release its connection; baseline and clean SIGTERM exit at the end.", "4 C13"),
     "C06": ("exploration", "sanitizers (ASan+UBSan+LSan) on the whole daemon under hostile inputs, with witness-connection monitor",
